@@ -193,8 +193,64 @@ var verifTestSPS = []byte{
 	0x20,
 }
 
+// Parameter sets of the other video codecs (VCODEC: 0 H264, 1 H265, 2 VP9, 3 AV1): valid test vectors of
+// mediacommon, so that the native replay goes through the real parsers.
+var verifH265VPS = []byte{
+	0x40, 0x01, 0x0c, 0x01, 0xff, 0xff, 0x02, 0x20, 0x00, 0x00, 0x03, 0x00, 0xb0, 0x00, 0x00, 0x03,
+	0x00, 0x00, 0x03, 0x00, 0x7b, 0x18, 0xb0, 0x24,
+}
+
+// two H265 SPS without picture reordering (the real DTS extractor then returns dts = pts)
+var verifH265SPS = []byte{
+	0x42, 0x01, 0x01, 0x04, 0x08, 0x00, 0x00, 0x03, 0x00, 0x98, 0x08, 0x00, 0x00, 0x03, 0x00, 0x00,
+	0x5d, 0x90, 0x00, 0x50, 0x10, 0x05, 0xa2, 0x29, 0x4b, 0x74, 0x94, 0x98, 0x5f, 0xfe, 0x00, 0x02,
+	0x00, 0x02, 0xd4, 0x04, 0x04, 0x04, 0x10, 0x00, 0x00, 0x03, 0x00, 0x10, 0x00, 0x00, 0x03, 0x01,
+	0xe0, 0x80,
+}
+
+var verifH265SPS2 = []byte{
+	0x42, 0x01, 0x01, 0x01, 0x40, 0x00, 0x00, 0x03, 0x00, 0x00, 0x03, 0x00, 0x00, 0x03, 0x00, 0x00,
+	0x03, 0x00, 0x7b, 0xa0, 0x03, 0xc0, 0x80, 0x11, 0x07, 0xcb, 0x96, 0xb4, 0xa4, 0x25, 0x92, 0xe3,
+	0x01, 0x6a, 0x02, 0x02, 0x02, 0x08, 0x00, 0x00, 0x03, 0x00, 0x08, 0x00, 0x00, 0x03, 0x01, 0xe3,
+	0x00, 0x2e, 0xf2, 0x88, 0x00, 0x07, 0x27, 0x0c, 0x00, 0x00, 0x98, 0x96, 0x82,
+}
+
+// H265 PPS number n: the default PPS followed by a distinguishing byte (the parser reads the leading fields only)
+func verifH265PPS(n int) []byte { return []byte{0x44, 0x01, 0xc1, 0x72, 0xb4, 0x62, 0x40, byte(n)} }
+
+// two VP9 key-frame headers (1920x804 and 3840x2160, profile 0, 8 bit, 4:2:0)
+var verifVP9Key = []byte{
+	0x82, 0x49, 0x83, 0x42, 0x00, 0x77, 0xf0, 0x32, 0x34, 0x30, 0x38, 0x24, 0x1c, 0x19, 0x40, 0x18,
+	0x03, 0x40, 0x5f, 0xb4,
+}
+
+var verifVP9Key2 = []byte{
+	0x82, 0x49, 0x83, 0x42, 0x40, 0xef, 0xf0, 0x86, 0xf4, 0x04, 0x21, 0xa0, 0xe0, 0x00, 0x30, 0x70,
+	0x00, 0x00, 0x00, 0x01,
+}
+
+// two AV1 sequence header OBUs
+var verifAV1Seq = []byte{8, 0, 0, 0, 66, 167, 191, 228, 96, 13, 0, 64}
+var verifAV1Seq2 = []byte{10, 11, 0, 0, 0, 66, 167, 191, 230, 46, 223, 200, 66}
+
 func verifVideoTrack() *Track {
+	switch verifParam("VCODEC", 0) {
+	case 1:
+		return &Track{Codec: &codecs.H265{VPS: verifH265VPS, SPS: verifH265SPS, PPS: verifH265PPS(0)}, ClockRate: 90000}
+	case 2:
+		return &Track{Codec: &codecs.VP9{Width: 1920, Height: 804, Profile: 0, BitDepth: 8, ChromaSubsampling: 1}, ClockRate: 90000}
+	case 3:
+		return &Track{Codec: &codecs.AV1{SequenceHeader: verifAV1Seq}, ClockRate: 90000}
+	}
 	return &Track{Codec: &codecs.H264{SPS: verifTestSPS, PPS: []byte{8, 0}}, ClockRate: 90000}
+}
+
+func verifIsVideoCodec(c codecs.Codec) bool {
+	switch c.(type) {
+	case *codecs.H264, *codecs.H265, *codecs.VP9, *codecs.AV1:
+		return true
+	}
+	return false
 }
 
 func verifAudioTrack(name string) *Track {
@@ -242,6 +298,14 @@ func verifSetup() *vRun {
 	layout := verifParam("TRACKS", 0)
 	r := &vRun{}
 	g := &vGhost{variant: variant, pps: []byte{8, 0}, sps: verifTestSPS}
+	switch verifParam("VCODEC", 0) {
+	case 1:
+		g.sps, g.pps = verifH265SPS, verifH265PPS(0)
+	case 2:
+		g.sps, g.pps = verifVP9Key, nil
+	case 3:
+		g.sps, g.pps = verifAV1Seq, nil
+	}
 	switch layout {
 	case 0:
 		r.tracks = []*Track{verifVideoTrack()}
@@ -266,7 +330,7 @@ func verifSetup() *vRun {
 		g.segMin = time.Duration(verifParam("SEGMIN_MS", 1000)) * time.Millisecond
 	}
 	for i, t := range r.tracks {
-		_, isV := t.Codec.(*codecs.H264)
+		isV := verifIsVideoCodec(t.Codec)
 		vt := &vTrack{rate: t.ClockRate, video: isV, leading: isV || (!hasVideo && i == 0)}
 		g.tracks = append(g.tracks, vt)
 	}
@@ -405,48 +469,26 @@ func (r *vRun) writeVideo(ti int) {
 		ptsOff = verifRangeI64("vptsoff", 0, verifPtsOffMax)
 	}
 	idr := kind == 0 || kind == 2 || kind == 4
-	var au [][]byte
-	if idr {
-		sps := g.sps // the real DTS extractor needs the SPS in-band
-		if kind == 4 {
-			// in-band SPS change: alternate between two valid parameter sets
-			if bytes.Equal(g.sps, verifTestSPS) {
-				sps = verifTestSPS2
-			} else {
-				sps = verifTestSPS
-			}
-			g.pending = true
-			g.sps = sps
-		}
-		au = append(au, sps)
-	}
-	if kind == 2 || kind == 3 {
-		np := []byte{8, byte(r.k + 1)}
-		au = append(au, np)
-		if !bytes.Equal(g.pps, np) {
-			g.pending = true
-			g.pps = np
-		}
-	}
-	if idr {
-		au = append(au, []byte{5, byte(r.k)})
-	} else {
-		au = append(au, []byte{1, byte(r.k)})
-	}
+	vc := verifParam("VCODEC", 0)
 	ntp := verifNTPBase.Add(time.Duration(r.k) * time.Second)
 	u := &vUnit{track: ti, k: r.k, dts: dts, ptsOff: ptsOff, sync: idr, ra: idr, ntp: ntp}
+	au := r.buildVideoUnit(vc, kind, idr, u, int32(ptsOff))
 	if idr && g.pending {
 		u.changed = true
 		g.pending = false
 	}
-	var ps fmp4.PartSample
-	ps.FillH264(int32(ptsOff), au) //nolint:errcheck
-	u.payload = ps.Payload
-	for _, n := range au {
-		u.raw = append(u.raw, n...)
-	}
 	before := r.m.streams[0].nextSegmentID
-	err := r.m.WriteH264(r.tracks[ti], ntp, dts+ptsOff, au)
+	var err error
+	switch vc {
+	case 0:
+		err = r.m.WriteH264(r.tracks[ti], ntp, dts+ptsOff, au)
+	case 1:
+		err = r.m.WriteH265(r.tracks[ti], ntp, dts+ptsOff, au)
+	case 2:
+		err = r.m.WriteVP9(r.tracks[ti], ntp, dts+ptsOff, au[0])
+	case 3:
+		err = r.m.WriteAV1(r.tracks[ti], ntp, dts+ptsOff, au)
+	}
 	verifAssume(err == nil)
 	// acceptance rule of the statement: the stream starts at the first random access unit;
 	// fMP4 rejects (silently) units whose shifted DTS is still negative.
@@ -469,6 +511,107 @@ func (r *vRun) writeVideo(ti int) {
 	}
 	after := r.m.streams[0].nextSegmentID
 	r.checkCut(cut, before, after)
+}
+
+// buildVideoUnit builds the access unit / frame / temporal unit of one write for the chosen codec, updates the
+// ghost's current parameter sets (g.pending when they change) and fills in the expected decoded payload.
+// kind: 0 random access, 1 not, 2 random access with changed parameters (PPS / frame size / sequence header),
+// 3 non-random-access unit carrying a changed PPS (H264 / H265 only), 4 random access with changed SPS.
+func (r *vRun) buildVideoUnit(vc int, kind int, ra bool, u *vUnit, ptsOff int32) [][]byte {
+	g := r.g
+	var au [][]byte
+	var ps fmp4.PartSample
+	switch vc {
+	case 0:
+		if ra {
+			sps := g.sps // the real DTS extractor needs the SPS in-band
+			if kind == 4 {
+				// in-band SPS change: alternate between two valid parameter sets
+				if bytes.Equal(g.sps, verifTestSPS) {
+					sps = verifTestSPS2
+				} else {
+					sps = verifTestSPS
+				}
+				g.pending = true
+				g.sps = sps
+			}
+			au = append(au, sps)
+		}
+		if kind == 2 || kind == 3 {
+			np := []byte{8, byte(r.k + 1)}
+			au = append(au, np)
+			if !bytes.Equal(g.pps, np) {
+				g.pending = true
+				g.pps = np
+			}
+		}
+		if ra {
+			au = append(au, []byte{5, byte(r.k)})
+		} else {
+			au = append(au, []byte{1, byte(r.k)})
+		}
+		ps.FillH264(ptsOff, au) //nolint:errcheck
+		u.payload = ps.Payload
+	case 1:
+		if kind == 4 {
+			if bytes.Equal(g.sps, verifH265SPS) {
+				g.sps = verifH265SPS2
+			} else {
+				g.sps = verifH265SPS
+			}
+			g.pending = true
+		}
+		if kind == 2 || kind == 3 {
+			g.pps = verifH265PPS(r.k + 1)
+			g.pending = true
+		}
+		if ra {
+			// the real DTS extractor needs SPS and PPS in-band
+			au = append(au, verifH265VPS, g.sps, g.pps, []byte{19 << 1, 1, byte(r.k)})
+		} else {
+			if kind == 3 {
+				au = append(au, g.pps)
+			}
+			au = append(au, []byte{1 << 1, 1, byte(r.k)})
+		}
+		ps.FillH265(ptsOff, au) //nolint:errcheck
+		u.payload = ps.Payload
+	case 2:
+		if ra {
+			if kind == 2 || kind == 4 {
+				if bytes.Equal(g.sps, verifVP9Key) {
+					g.sps = verifVP9Key2
+				} else {
+					g.sps = verifVP9Key
+				}
+				g.pending = true
+			}
+			f := append(append([]byte{}, g.sps...), byte(r.k))
+			au = [][]byte{f}
+		} else {
+			au = [][]byte{{0x86, 0x00, byte(r.k)}} // frame marker, profile 0, non-key frame, shown
+		}
+		u.payload = au[0]
+	case 3:
+		if ra {
+			if kind == 2 || kind == 4 {
+				if bytes.Equal(g.sps, verifAV1Seq) {
+					g.sps = verifAV1Seq2
+				} else {
+					g.sps = verifAV1Seq
+				}
+				g.pending = true
+			}
+			au = append(au, g.sps)
+		}
+		au = append(au, []byte{0x32, 0x02, 0x01, byte(r.k)}) // frame OBU with a size field
+		ps.FillAV1(au) //nolint:errcheck
+		u.payload = ps.Payload
+	}
+	for _, n := range au {
+		u.raw = append(u.raw, n...)
+	}
+	return au
 }
 
 var verifVideoStarted = map[int]bool{}
@@ -707,6 +850,9 @@ func (r *vRun) checkMultivariant() {
 	for _, t := range g.tracks {
 		want := "mp4a.40.2"
 		if t.video {
+			if verifParam("VCODEC", 0) != 0 {
+				continue // RFC 6381 strings of the other video codecs: lemma.codecs (C09)
+			}
 			want = "avc1." + hex.EncodeToString(g.sps[1:4])
 		}
 		verifAssert("C16", "codecs-lists-every-track-current-parameters", containsCodec(v.Codecs, want))
@@ -720,7 +866,7 @@ func (r *vRun) checkMultivariant() {
 			naudio++
 		}
 	}
-	if hasVideo {
+	if hasVideo && verifParam("VCODEC", 0) == 0 {
 		verifAssert("C16", "resolution-matches-current-sps", v.Resolution == "1920x1080")
 		verifAssert("C16", "frame-rate-present", v.FrameRate != nil && *v.FrameRate > 0)
 	}
@@ -962,7 +1108,39 @@ func (r *vRun) checkInit(so *vStreamObs, body []byte) {
 				verifAssert("C02", "init-carries-new-parameters", bytes.Equal(c.PPS, g.pps) && bytes.Equal(c.SPS, g.sps))
 			}
 		} else {
-			verifAssert("C02", "init-codec-type", !t.video)
+			changeDone := false
+			for _, sg := range g.segs {
+				if sg.forced {
+					changeDone = true
+				}
+			}
+			changeDone = changeDone && !g.pending && (g.open == nil || !g.open.forced)
+			switch c := in.Tracks[i].Codec.(type) {
+			case *fmp4.CodecH265:
+				verifAssert("C02", "init-codec-type", t.video && verifParam("VCODEC", 0) == 1)
+				if changeDone {
+					verifReach("init-after-change")
+					verifAssert("C02", "init-carries-new-parameters", bytes.Equal(c.PPS, g.pps) && bytes.Equal(c.SPS, g.sps) && bytes.Equal(c.VPS, verifH265VPS))
+				}
+			case *fmp4.CodecVP9:
+				verifAssert("C02", "init-codec-type", t.video && verifParam("VCODEC", 0) == 2)
+				if changeDone {
+					verifReach("init-after-change")
+					w, h := 1920, 804
+					if bytes.Equal(g.sps, verifVP9Key2) {
+						w, h = 3840, 2160
+					}
+					verifAssert("C02", "init-carries-new-parameters", c.Width == w && c.Height == h && c.BitDepth == 8 && c.Profile == 0)
+				}
+			case *fmp4.CodecAV1:
+				verifAssert("C02", "init-codec-type", t.video && verifParam("VCODEC", 0) == 3)
+				if changeDone {
+					verifReach("init-after-change")
+					verifAssert("C02", "init-carries-new-parameters", bytes.Equal(c.SequenceHeader, g.sps))
+				}
+			default:
+				verifAssert("C02", "init-codec-type", !t.video)
+			}
 		}
 	}
 }
